@@ -264,6 +264,8 @@ func (c *collector) add(ctx context.Context, id string, t *tpb.Target, tt *tunne
 		t.Addresses = []string{id}
 	}
 
+	// The cache only accepts updates and subscriptions for targets it knows.
+	c.cache.Add(id)
 	if err := c.tm.Add(id, t, request); err != nil {
 		return fmt.Errorf("Could not add target %q: %v", id, err)
 	}
